@@ -127,6 +127,22 @@ pub fn run_c09(p: &mut Prng, t: Tier, i: usize, sink: &mut Sink) {
             if w.slots.contains_key("s.sig") {
                 w.exec(sm9_verify_op("s", true));
             }
+            // history: a second identity under the same master key, then the first one again
+            if p.chance(1, 4) {
+                let id2 = sm9_id(p);
+                w.exec(set("s.id2", &id2));
+                let r = w.exec(json!({"op":"sm9.extract","impl":pick_impl(p, 2, 3),"kind":"sign","k":"s.k","pub":"s.pub","id":"s.id2","out":"s.uk2"}));
+                if r.get("class").and_then(|c| c.as_str()) == Some("Ok") {
+                    w.exec(json!({"op":"sm9.sign","impl":"lib","ds":"s.uk2","ppubs":"s.pub","id":"s.id2","msg":"s.msg","sig":"s.sig2","rng":rng_json(&uniform_script(p, 1))}));
+                    if w.slots.contains_key("s.sig2") {
+                        w.exec(json!({"op":"sm9.verify","impl":"lib","ppubs":"s.pub","id":"s.id2","msg":"s.msg","sig":"s.sig2"}));
+                        // cross: each signature under the other identity must be refused
+                        w.exec(json!({"op":"sm9.verify","impl":"lib","ppubs":"s.pub","id":"s.id","msg":"s.msg","sig":"s.sig2"}));
+                    }
+                }
+                sm9_sign_ops(&mut w, "s", "lib", rng_json(&uniform_script(p, 1)));
+                w.exec(sm9_verify_op("s", true));
+            }
         }
         if i == 1 {
             w.samples.push(json!({"schedule": w.history.clone()}));
@@ -161,6 +177,10 @@ pub fn run_c09(p: &mut Prng, t: Tier, i: usize, sink: &mut Sink) {
         }
     };
     let v = || sm9_verify_op("a", false);
+    for x in ["pub", "id", "msg", "sig"] {
+        w.exec(json!({"op":"copy","from":format!("a.{x}"),"to":format!("a0.{x}")}));
+    }
+    let genuine9 = sm9_verify_op("a0", false);
     let mut branches: Vec<Vec<Value>> = vec![];
     // every bit of h and of S's coordinates
     for bit in (0..256).chain(264..97 * 8) {
@@ -224,8 +244,17 @@ pub fn run_c09(p: &mut Prng, t: Tier, i: usize, sink: &mut Sink) {
             continue;
         }
         let mut f = w.fork();
+        // history on a quarter of the branches (and on every non-bit-flip fault): genuine
+        // delivery before and after the faulted one
+        let hist = bi % 4 == 0 || bi >= 768;
+        if hist {
+            f.exec(genuine9.clone());
+        }
         for op in br {
             f.exec(op);
+        }
+        if hist {
+            f.exec(genuine9.clone());
         }
         sink.done(f);
     }
@@ -287,10 +316,29 @@ pub fn run_c10(p: &mut Prng, t: Tier, i: usize, sink: &mut Sink) {
         if setup_keys(p, &mut w, "s", "enc", &id, None) {
             let len = ((i - 2) % 255) + 1; // every length 1..=255 across a batch
             w.exec(set("s.msg", &msg_of_len(p, len)));
+            // history across protocols: an exchange step (hid 02) with the same identity first
+            if p.chance(1, 4) {
+                w.bump("history.exchange-before-encrypt");
+                w.exec(json!({"op":"sm9.kex.1a","impl":"lib","ppube":"s.pub","idb":"s.id","out_ra":"s.wra","out_r":"s.wr","rng":rng_json(&uniform_script(p, 1))}));
+            }
             w.exec(sm9_enc_op("s", pick_impl(p, 2, 3), rng_json(&uniform_script(p, 1))));
             if w.slots.contains_key("s.ct") {
                 w.exec(sm9_dec_op("s", true));
                 round_trip_check(&mut w, "s", i as u64);
+            }
+            // history: another identity under the same master key in between, then the first again
+            if p.chance(1, 4) {
+                let id2 = sm9_id(p);
+                w.exec(set("s.id2", &id2));
+                w.exec(json!({"op":"sm9.encrypt","impl":"lib","ppube":"s.pub","id":"s.id2","msg":"s.msg","ct":"s.ct2","rng":rng_json(&uniform_script(p, 1))}));
+                // a ciphertext for the other identity must not open with this identity's key
+                if w.slots.contains_key("s.ct2") {
+                    w.exec(json!({"op":"sm9.decrypt","impl":"lib","de":"s.uk","ppube":"s.pub","id":"s.id","ct":"s.ct2"}));
+                }
+                w.exec(sm9_enc_op("s", "lib", rng_json(&uniform_script(p, 1))));
+                w.slots.remove("s.pt");
+                w.exec(sm9_dec_op("s", true));
+                round_trip_check(&mut w, "s", i as u64 + 1_000_000);
             }
         }
         if i == 2 {
@@ -319,6 +367,14 @@ pub fn run_c10(p: &mut Prng, t: Tier, i: usize, sink: &mut Sink) {
         }
     };
     let d = || sm9_dec_op("a", false);
+    for x in ["uk", "pub", "id", "ct"] {
+        w.exec(json!({"op":"copy","from":format!("a.{x}"),"to":format!("a0.{x}")}));
+    }
+    let genuine10 = {
+        let mut g = sm9_dec_op("a0", false);
+        g["out"] = json!("a0.pt");
+        g
+    };
     let mut branches: Vec<Vec<Value>> = vec![];
     for bit in 0..ct.len() * 8 {
         branches.push(vec![fault("a.ct", "flip", json!({"bit":bit})), d()]);
@@ -461,13 +517,24 @@ pub fn run_c10(p: &mut Prng, t: Tier, i: usize, sink: &mut Sink) {
         }
         sink.done(f);
     }
+    let nflips = ct.len() * 8;
     for (bi, br) in branches.into_iter().enumerate() {
         if bi % C10_CHUNKS != chunk {
             continue;
         }
         let mut f = w.fork();
+        let hist = bi % 4 == 0 || bi >= nflips;
+        if hist {
+            f.exec(genuine10.clone());
+        }
         for op in br {
             f.exec(op);
+        }
+        if hist {
+            // after a rejected ciphertext the genuine one must still open (completeness oracle on)
+            let mut g = genuine10.clone();
+            g["ref_on_reject"] = json!(true);
+            f.exec(g);
         }
         sink.done(f);
     }
@@ -577,7 +644,13 @@ struct KexPlan {
 
 fn kex_session(p: &mut Prng, w: &mut World, plan: &KexPlan, fixed: Option<(&str, &str, &str)>) {
     let (ida, idb) = if fixed.is_some() { (b"Alice".to_vec(), b"Bob".to_vec()) } else { (sm9_id(p), sm9_id(p)) };
-    let klen = if fixed.is_some() { 16 } else { p.range(1, 128) };
+    let klen = if fixed.is_some() {
+        16
+    } else if p.chance(1, 3) {
+        *p.pick(&[1usize, 16, 31, 32, 33, 64, 96, 128])
+    } else {
+        p.range(1, 128)
+    };
     if !setup_keys(p, w, "k", "exch", &ida, fixed.map(|f| f.0)) {
         return;
     }
@@ -593,6 +666,15 @@ fn kex_session(p: &mut Prng, w: &mut World, plan: &KexPlan, fixed: Option<(&str,
             None => rng_json(&uniform_script(p, 1)),
         }
     };
+    // history across protocols: the same master public key and identity were used for an
+    // encryption (hid 03) just before the exchange (hid 02)
+    if fixed.is_none() && plan.tamper.is_none() && p.chance(1, 3) {
+        w.bump("history.encrypt-before-exchange");
+        w.exec(set("k.wmsg", &p.bytes(9)));
+        for idslot in ["k.idb", "k.id"] {
+            w.exec(json!({"op":"sm9.encrypt","impl":"lib","ppube":"k.pub","id":idslot,"msg":"k.wmsg","ct":"k.wct","rng":rng_json(&uniform_script(p, 1))}));
+        }
+    }
     let r1 = w.exec(json!({"op":"sm9.kex.1a","impl":plan.impl_a,"ppube":"k.pub","idb":"k.idb","out_ra":"m1.ra","out_r":"a.store.r","rng":script(p, fixed.map(|f| f.1))}));
     if r1.get("class").and_then(|c| c.as_str()) != Some("Ok") {
         return;
